@@ -548,6 +548,54 @@ def _plain_bfs(v):
     return out
 
 
+class _Rows(list):
+    """a list subclass of the everyday kind (instances have a __dict__)"""
+
+
+class _Pair(tuple):
+    pass
+
+
+def sequence_subclasses_are_walked_by_their_items(col):
+    """"one entry per child (... sequence or iterable items ...)": an instance of a list / tuple SUBCLASS is a sequence, its children
+    are its items - for *, for **, for the steps that follow, and for Assign / Delete through the wildcard - exactly as for the
+    plain list / tuple holding the same items"""
+    from glom import assign, delete
+    import collections
+    NT = collections.namedtuple('NT', 'x y')
+    mk = {'list-subclass': lambda items: _Rows(items), 'tuple-subclass': lambda items: _Pair(items), 'namedtuple': lambda items: NT(*items[:2]),
+          'list-subclass-with-an-attribute': lambda items: _with_attr(_Rows(items))}
+    for kind, wrap in mk.items():
+        items = [{'k': 1, 's': [10]}, {'k': 2, 's': [20, 21]}]
+        plain = list(items) if 'list' in kind else tuple(items)
+        for desc, spec in (("'*'", '*'), ('T.*', T.__star__()), ("'*.k'", '*.k'), ("'**.k'", '**.k'), ("'*.s.*'", '*.s.*'), ("'rows.*.k' below a dict", None)):
+            if spec is None:
+                got, want = call(G, {'rows': wrap(items)}, 'rows.*.k'), call(G, {'rows': plain}, 'rows.*.k')
+            else:
+                got, want = call(G, wrap(items), spec), call(G, plain, spec)
+            col.case(('sequence-subclass', kind, desc), True)
+            col.count('wildcard_evaluations')
+            col.count('walks_over_sequence_subclass_instances')
+            if got.ok != want.ok or (got.ok and got.value != want.value):
+                col.violation('C14/sequence-subclass-instance-not-walked-by-its-items:' + kind, '%s on a %s holding %r: %r ; on the plain sequence: %r'
+                              % (desc, kind, items, got, want), None)
+        if kind != 'namedtuple' and 'tuple' not in kind:
+            t = {'rows': wrap([{'k': 1}, {'k': 2}])}
+            got = call(assign, t, 'rows.*.k', 9)
+            col.count('wildcard_mutations')
+            if not got.ok or [r['k'] for r in t['rows']] != [9, 9]:
+                col.violation('C14/sequence-subclass-instance-not-walked-by-its-items:assign', "assign(.., 'rows.*.k', 9) over a %s: %r ; rows now %r" % (kind, got, list(t['rows'])), None)
+            got = call(delete, t, 'rows.*.k')
+            col.count('wildcard_mutations')
+            if not got.ok or any('k' in r for r in t['rows']):
+                col.violation('C14/sequence-subclass-instance-not-walked-by-its-items:delete', "delete(.., 'rows.*.k') over a %s: %r ; rows now %r" % (kind, got, list(t['rows'])), None)
+
+
+def _with_attr(obj):
+    obj.label = 'an attribute next to the items'
+    return obj
+
+
 def mutate_case(col, rng):
     """Assign / Delete through wildcards act on every entry"""
     def build():
@@ -749,6 +797,7 @@ def run(ctx):
         if ctx.shard == 0:
             special_iterables(col, counter)
             children_created_on_access(col, counter)
+            sequence_subclasses_are_walked_by_their_items(col)
         for i in range(ctx.n(25000, 100000)):
             eval_case(col, counter, rng)
         for i in range(ctx.n(2500, 10000)):
